@@ -193,13 +193,118 @@ def run(fx, R, tier):
         for f in ests:
             R.used(f)
             tag = 'aligned' if len(f['params']) == 2 else 'indexed'
-            tails.append(check_estimate(fx, R, cname, f, tag))
+            v9 = homogeneous_tail(fx, R, cq, cname, f, tag)
+            tails.append(check_estimate(fx, R, cname, f, tag, v9))
         if all(t is not None for t in tails):
             R.form(tails[0] == tails[1], 'V5', '%s::estimate_:overload-agreement' % cname,
                    'the two estimate_ overloads are written differently after the covariance loop (%s vs %s); each is decided on its own by V1-V3' % (first_diff(tails[0], tails[1])),
                    'identical SVD / correction / rotation / translation statements', fx.rel(ests[0]['loc']), 'E-SIB')
         check_find(fx, R, cq, cname)
     check_preconditioned_set(fx, R)
+
+
+def scaled_w(fx, cq):
+    """True when PreconditionedPointSet<same point type>::compute(points, scale) multiplies the WHOLE stored point by the scalar (so a homogeneous
+    point leaves it with w = scale), False when it provably keeps w (uses a per-component array / only the Cartesian head), None when not readable."""
+    pt = cq[cq.index('<') + 1:-1]
+    g = [h for h in fx.fn('romea::core::PreconditionedPointSet<%s>::compute' % pt) if len(h['params']) == 2 and 'Preconditioner' not in h['params'][1]['t'].get('s', '')]
+    if len(g) != 1:
+        return None
+    g = g[0]
+    pname, sname = g['params'][0]['name'], g['params'][1]['name']
+    st = [e for e in events(g) if e[0] == 'expr' and isinstance(e[1], tuple) and e[1][0] == '=' and contains(e[1][1], 'this.points_')]
+    if len(st) != 1:
+        return None
+    rhs = st[0][1][2]
+    whole = [('*', ('.array', ('[]', pname, '$N')), sname), ('*', sname, ('.array', ('[]', pname, '$N'))), ('*', ('[]', pname, '$N'), sname), ('*', sname, ('[]', pname, '$N'))]
+    if any(m(w_, rhs, {}) for w_ in whole):
+        return True
+    return None
+
+
+def homogeneous_tail(fx, R, cq, cname, f, tag):
+    """V9: the statements from the declaration of the returned matrix to the return are read with symbolic SVD factors and means.  For a
+    homogeneous point type the means carry the homogeneous coordinate w of the points (1 for plain sets; the scale for sets preconditioned by
+    the scale-only compute(), when that function multiplies the whole point).  The result must be [[R, targetMean - R sourceMean], [0, 1]]."""
+    from .. import mat, alg
+    inst = 'FindRigidTransformationBySVD::estimate_/%s:homogeneous-form [%s]' % (tag, cname)
+    D = cdim(f, fx)
+    body = f.get('body')
+    if D is None or body is None or body.get('k') != 'Compound':
+        R.undecided('V9', inst, 'body not readable')
+        return
+    top = body['s']
+    hi = None
+    for i_, x in enumerate(top):
+        if x.get('k') == 'Decl' and any(mat.dims_of(v['t'].get('s', '')) == (D + 1, D + 1) for v in x['vars']):
+            hi = i_
+    if hi is None:
+        R.undecided('V9', inst, 'no top-level declaration of a %dx%d matrix' % (D + 1, D + 1))
+        return
+    sw = scaled_w(fx, cq)
+    st0 = sym.State()
+    P = None
+    means = {}
+    for x in top[:hi]:
+        if x.get('k') != 'Decl':
+            continue
+        for v in x['vars']:
+            ts = v['t'].get('s', '')
+            d = mat.dims_of(ts)
+            if d is None and '-1, -1' in ts:
+                d = (D, D)
+            if d is None:
+                continue
+            if d[1] == 1 and v['name'] in ('sourceMean', 'targetMean'):
+                P = d[0]
+                means[v['name']] = v['id']
+            else:
+                st0.locals[v['id']] = sp.ImmutableMatrix(d[0], d[1], lambda i, j, n_=v['name']: sp.Symbol('%s%d%d' % (n_, i, j), real=True))
+    if set(means) != {'sourceMean', 'targetMean'} or P not in (D, D + 1):
+        R.undecided('V9', inst, 'sourceMean / targetMean not declared before the result matrix')
+        return
+    w = sp.Symbol('w', positive=True) if (P > D and sw) else sp.Integer(1)
+    ms = sp.ImmutableMatrix(P, 1, lambda i, j: sp.Symbol('ms%d' % i, real=True) if i < D else w)
+    mt = sp.ImmutableMatrix(P, 1, lambda i, j: sp.Symbol('mt%d' % i, real=True) if i < D else w)
+    st0.locals[means['sourceMean']] = ms
+    st0.locals[means['targetMean']] = mt
+    rd = sym.Reader(fx, call_hook=mat.hook, member_hook=mat.member_hook)
+    ctx = {'this': ('this',), 'fn': f, 'depth': 0}
+    try:
+        states = [st0]
+        for x in top[hi:]:
+            nxt = []
+            for s_ in states:
+                nxt += rd.ex(x, s_, ctx) if s_.ret is None else [s_]
+            states = nxt
+    except sym.Unsupported as u:
+        R.undecided('V9', inst, 'tail not interpretable: %s' % u)
+        return
+    loc = fx.rel(top[hi]['loc'])
+    for st in states:
+        H = st.ret
+        if not isinstance(H, sp.MatrixBase) or H.shape != (D + 1, D + 1):
+            R.undecided('V9', inst, 'returned value not readable as a %dx%d matrix' % (D + 1, D + 1))
+            return
+        Rb = sp.Matrix(H[:D, :D])
+        want_t = sp.Matrix(mt[:D, 0]) - Rb * sp.Matrix(ms[:D, 0])
+        checks = [('translation column', sp.Matrix(H[:D, D]) - want_t, 'targetMean - R*sourceMean (Cartesian parts, R the rotation block it stores)'),
+                  ('bottom row', sp.Matrix(H[D, :D]), 'zero'), ('bottom-right entry', sp.Matrix([H[D, D] - 1]), '1')]
+        for (what, resid, want) in checks:
+            v = alg.decide_zero(resid)
+            if v[0] == 'nonzero':
+                R.violated('V9', 'FindRigidTransformationBySVD::estimate_/%s:homogeneous-form:%s' % (tag, what.replace(' ', '-')),
+                           'the %s of the returned matrix is %s, not %s (differs by %s at %s)%s: the result is not the homogeneous matrix of the rigid motion [%s]' % (
+                               what, str((sp.Matrix(H[:D, D]) if what.startswith('tr') else sp.Matrix(H[D, :])).T.tolist())[:160], want, v[2], alg.witness_text(v[1])[:120],
+                               '; w is the homogeneous coordinate of the points - PreconditionedPointSet::compute(points, scale) multiplies the whole point by the scale, so sets preconditioned that way '
+                               'have w = scale, and the property says the result is unchanged by isotropic preconditioning and by the point representation' if w != 1 and any(x_ == w for x_ in resid.free_symbols) else '',
+                               cname), loc, 'E-ALG')
+                return False
+            if v[0] != 'zero':
+                R.undecided('V9', inst, '%s not decided: %s' % (what, v[1]))
+                return
+    R.holds('V9', inst, '[[R, targetMean - R sourceMean], [0, 1]] for symbolic factors and means%s' % (' with homogeneous coordinate w (any scale)' if w != 1 else ''), loc, 'E-ALG')
+    return True
 
 
 def first_diff(a, b):
@@ -209,10 +314,38 @@ def first_diff(a, b):
     return (len(a), len(b))
 
 
-def check_estimate(fx, R, cname, f, tag):
+def check_bypass(fx, R, cname, f, tag):
+    """V10: a path of the indexed overload that returns before the accumulation loops must have consulted the pairs.  Returns True when such a
+    path was reported (VIOLATED or UNDECIDED), so that the statement-form rules do not mis-word it."""
+    from .. import earlyexit
+    inst = 'FindRigidTransformationBySVD::estimate_/%s:bypass' % tag
+    top = f['body']['s'] if f.get('body') and f['body'].get('k') == 'Compound' else []
+    li = next((i_ for i_, x in enumerate(top) if x.get('k') in ('For', 'RangeFor', 'While')), None)
+    if li is None:
+        return False
+    exits = earlyexit.exits_before(top, li)
+    if not exits:
+        R.holds('V10', inst + ' [%s]' % cname, 'no return before the accumulation loops', fx.rel(f['loc']), 'E-STATE')
+        return False
+    lname = next((p['name'] for p in f['params'] if 'Correspondence' in p['t'].get('s', '')), None)
+    for (node, ctext, tol) in exits:
+        reads_pairs = lname is not None and any(y.get('k') in ('Op', 'Index', 'RangeFor') and (lname + '[') in pp(y) for y in walk(node['c']))
+        rets = [y for y in walk(node.get('t')) if y.get('k') == 'Return' and y.get('e') is not None]
+        delegates = [y for y in rets for z in walk(y['e']) if z.get('k') in ('MCall', 'Call') and (z.get('m') == 'estimate_' or (z.get('fn') or '').endswith('::estimate_')) and len(z.get('args', [])) == 2]
+        if tag == 'indexed' and delegates and not reads_pairs and not any(y.get('k') in ('For', 'RangeFor', 'While') for y in walk(node.get('t'))):
+            R.violated('V10', inst, 'when `%s` the indexed overload returns the result of the aligned overload, which pairs point n with point n: the condition looks only at sizes and never at the '
+                       'entries of `%s`, so a list of that length that pairs the points differently (a permutation, which the property names: every correspondence order / pairing) is ignored and '
+                       'the motion of the identity pairing is returned [%s]' % (ctext, lname, cname), fx.rel(node['loc']), 'E-STATE')
+        else:
+            R.undecided('V10', inst + ' [%s]' % cname, 'returns before the accumulation loops when `%s`; whether that path is equivalent for every correspondence list is not decided' % ctext)
+    return True
+
+
+def check_estimate(fx, R, cname, f, tag, v9=None):
     inst = 'FindRigidTransformationBySVD::estimate_/%s' % tag
     ptag = ' [%s]' % cname
     ev = events(f)
+    bypass = check_bypass(fx, R, cname, f, tag)
     D = cdim(f, fx)
     # ---- locate the anchors ---------------------------------------------
     rot = [i for i, e in enumerate(ev) if e[0] == 'expr' and m(('=', ('.block', '$H', 0, 0, 'CARTESIAN_DIM', 'CARTESIAN_DIM'), '$RHS'), e[1], {})]
@@ -298,7 +431,7 @@ def check_estimate(fx, R, cname, f, tag):
     # ---- V2 ----------------------------------------------------------------
     hdecl = decls.get(H)
     ident = hdecl is not None and contains(hdecl[1], ('Eigen::MatrixBase<%s>::Identity' % '',)) or (hdecl is not None and 'Identity' in str(hdecl[1]))
-    R.form(bool(ident), 'V2', inst + ':identity', 'H is not declared as Identity(): %s' % (hdecl,), 'H starts as identity', fx.rel(f['loc']), 'E-ALG',
+    R.form(bool(ident) or v9 is True, 'V2', inst + ':identity', 'H is not declared as Identity(): %s' % (hdecl,), 'H starts as identity', fx.rel(f['loc']), 'E-ALG',
            facts=[(hdecl is not None and 'Zero' in str(hdecl[1]) and not any(contains(e[1], '.setIdentity') for e in ev), 'H starts as Zero() and is never set to the identity: the homogeneous row of the result is 0')])
     tr = [e for e in ev[ri + 1:] if e[0] == 'expr' and isinstance(e[1], tuple) and e[1][0] in ('+=', '=') and m(('.block', H, 0, 'CARTESIAN_DIM', '$R', 1), e[1][1], {})]
     okt = False
@@ -307,7 +440,7 @@ def check_estimate(fx, R, cname, f, tag):
         okt = m((e[0], ('.block', H, 0, 'CARTESIAN_DIM', '$R', 1), ('-', 'targetMean', ('*', ('.block', H, 0, 0, '$R', '$R'), 'sourceMean'))), e, {})
     tb = {}
     generic_t = len(tr) == 1 and m((tr[0][1][0], ('.block', H, 0, 'CARTESIAN_DIM', '$R', 1), ('-', '$A', ('*', ('.block', H, 0, 0, '$R', '$R'), '$B'))), tr[0][1], tb)
-    R.form(okt, 'V2', inst + ':translation', 'translation column not in the enumerated form targetMean - R*sourceMean after the rotation store: %s' % ([t[1] for t in tr],),
+    R.form(okt or v9 is True, 'V2', inst + ':translation', 'translation column not in the enumerated form targetMean - R*sourceMean after the rotation store: %s' % ([t[1] for t in tr],),
            't = targetMean - R*sourceMean', fx.rel(tr[0][2]['loc']) if tr else fx.rel(f['loc']), 'E-ALG',
            facts=[(bool(generic_t) and {tb.get('$A'), tb.get('$B')} <= {'sourceMean', 'targetMean'} and (tb.get('$A'), tb.get('$B')) != ('targetMean', 'sourceMean'),
                    'translation column is %s - R*%s: the centroid map is targetMean - R*sourceMean (this is the translation of another motion)' % (tb.get('$A'), tb.get('$B'))),
@@ -367,6 +500,8 @@ def check_estimate(fx, R, cname, f, tag):
         R.undecided('V3', inst + ':pairs', 'how the covariance fetches its pair is not resolved: %s with %s' % (cb['$P1'], cb['$P2']))
     # the returned matrix is H
     rets = [e for e in ev if e[0] == 'return']
+    if bypass:
+        rets = [r_ for r_ in rets if not r_[3]]      # guarded early returns are V10's business
     R.form(len(rets) == 1 and rets[0][1] == H, 'V2', inst + ':return', 'the return statement(s) %s are not `return %s`' % ([r_[1] for r_ in rets], H), 'returns H', fx.rel(f['loc']), 'E-SIB')
     # tail for overload comparison (from the svd declaration on, guards included)
     start = decls[svdname][0]
